@@ -281,9 +281,13 @@ def rule_closed_forms(repo: Repo, rep: Report) -> None:
     # --- lcm = a*b / gcd
     fi = repo.func(ALG, "BinaryPolynomial.lcm")
     finals = [r for r in returns_of(fi.node) if match(Inliner(fi).inline(r.value), "BinaryPolynomial(0)") is None and match(r.value, "self") is None]
+    lst, ldetail = lcm_tabulated(fi)
+    if lst in (OK, VIOLATION):
+        rep.add("KERNEL", fi, "BinaryPolynomial.lcm tabulated against a*b / gcd(a,b) in GF(2)[x]", lst, ldetail, node=fi.node)
+        finals = []
     for r in finals:
         check_expr(rep, "CLOSED-FORM", fi, r.value, ["(self * other).div(self.gcd(other))", "(other * self).div(self.gcd(other))", "(self * other).div(other.gcd(self))"], "lcm = a*b / gcd(a,b)")
-    rep.floor("lcm general returns", len(finals), 1)
+    rep.floor("lcm general returns / tabulation", len(finals) + (1 if lst in (OK, VIOLATION) else 0), 1)
 
     # --- shift-xor multiply
     fi = repo.func(ALG, "BinaryPolynomial.__mul__")
@@ -631,6 +635,32 @@ def gcd_tabulated(fi: FuncInfo):
         if got.value != want:
             return VIOLATION, f"gcd({bin(a)}, {bin(b)}) is returned as {bin(got.value)}; the greatest common divisor in GF(2)[x] is {bin(want)} (the returned polynomial is not a combination s*a + t*b of the operands / does not carry their common factor)"
     return OK, f"equals the Euclidean gcd (own arithmetic) on {len(pairs)} operand pairs, common powers of x and equal operands included"
+
+
+def lcm_tabulated(fi: FuncInfo):
+    """Run BinaryPolynomial.lcm (own model class gf2.BP for the polynomial objects: product, remainder, quotient and gcd
+    are the checker's) on all pairs of words below 40 and on long words; the result must be a * b / gcd(a, b)."""
+    from ..frag import FragRaise, FragReturn, run_fragment
+
+    words = list(range(0, 40))
+    big = [(1 << 33) | 0b1010, (1 << 20) - 2, 0b1011 << 7, 0b10011 << 3, (0b1011 << 5) ^ (0b1011 << 2), 0b10011, 0b111]
+    pairs = [(a, b) for a in words for b in words] + [(a, b) for a in big for b in big]
+    for a, b in pairs:
+        try:
+            run_fragment(fi.body, {"self": gf2.BP(a), "other": gf2.BP(b)}, {}, max_steps=20000, ctors={"BinaryPolynomial": gf2.BP})
+            return UNDECIDED, "no value returned"
+        except FragReturn as r:
+            got = r.value
+        except FragRaise:
+            return VIOLATION, f"lcm({bin(a)}, {bin(b)}) raises"
+        except (Unfoldable, TypeError, ZeroDivisionError) as exc:
+            return UNDECIDED, f"not evaluable ({exc})"
+        want = 0 if (a == 0 or b == 0) else gf2.pdivmod(gf2.pmul(a, b), gf2.pgcd(a, b))[0]
+        if not isinstance(got, gf2.BP):
+            return UNDECIDED, f"result {got!r} is not a polynomial"
+        if got.value != want:
+            return VIOLATION, f"lcm({bin(a)}, {bin(b)}) is returned as {bin(got.value)}; the least common multiple in GF(2)[x] is {bin(want)} = a*b / gcd(a,b) (lcm * gcd != a * b: a factor of an operand is missing or repeated, so generator polynomials built as the lcm of minimal polynomials lose or duplicate roots)"
+    return OK, f"equals a*b / gcd(a,b) (own arithmetic) on {len(pairs)} operand pairs, zero, equal and coprime operands included"
 
 
 def rule_kernels(repo: Repo, rep: Report) -> None:
